@@ -66,7 +66,7 @@ PROPERTIES = {
     'C03': {
         'functions': ['BaseEvent.__await__.wait', 'EventBus.process_event', 'CleanShutdownQueue.get_nowait', 'BaseEvent.event_completed_signal', 'BaseEvent.event_mark_complete_if_all_handlers_completed', 'BaseEvent.event_are_all_children_complete', 'BaseEvent.event_children'] + ['BaseEvent.event_completed_at', 'BaseEvent.event_status', 'EventBus._execute_handlers', 'EventBus._get_applicable_handlers'],
         'level': 'other',
-        'trusted_base': AWAIT_TB + ['event_are_all_children_complete / event_children: one-level contracts assumed (recursive walk not verified)'],
+        'trusted_base': AWAIT_TB + ['event_are_all_children_complete: verified with an inductive contract over its visited set, assuming P6 (distinct events have distinct event_id); event_children: view contract assumed'],
         'not_decided': ['"always returns" and "the waiter is released without further stimulus" are liveness; the converse direction is stated for the direct parent only '
                         '(process_event/ensures:completion_propagated_to_parent, open finding F11), not for the whole ancestor chain'],
         'assumptions': [],
